@@ -20,21 +20,21 @@ def run(tier):
     common.build(["hook", "dev"])
     common.replay_witnesses(ck, ["hook", "dev"])
     common.replay_known(ck)
-    n = 2000 if quick else 60000
+    n = 2000 if quick else 60000 * common.TS
     rng = ck.rng.fork("graphs")
     plist = []
     for i in range(n):
         src, mods = feat_mod.module_program(rng.fork(str(i)))
         plist.append({"name": "graph/%d" % i, "steps": [("snip", src)], "mods": mods})
     r2 = ck.rng.fork("histories")
-    for i in range(600 if quick else 20000):
+    for i in range(600 if quick else 20000 * common.TS):
         steps, mods = feat_mod.module_history(r2.fork(str(i)))
         plist.append({"name": "history/%d" % i, "steps": steps, "mods": mods})
     loads_seen = {}
 
     from ..gen import feat_fiber as _ff
     rxf = ck.rng.fork("xmodfib")
-    for i in range(250 if quick else 8000):
+    for i in range(250 if quick else 8000 * common.TS):
         _src, _mods = _ff.xmod_fiber_program(rxf.fork(str(i)))
         plist.append({"name": "xmodfiber/%d" % i, "steps": [("snip", _src)], "mods": _mods})
 
